@@ -48,3 +48,17 @@ Definition case01e := (nat * nat * list (list nat) * list (list nat) * bool)%typ
 Definition check01e (c : case01e) : bool :=
   let '(N, M, pos, spec, sd) := c in
   match view_init 0 (mk_main N M) pos spec sd with Err _ => true | Ok _ => false end.
+
+(* get_unit_values: (inds, vals (scaled Z), is_spec option, number of names, obs code, obs unit values per dimension) *)
+Require Import V.Usid.UnitValues.
+Definition case09u := (list (list nat) * list (list Z) * option bool * nat * nat * list (list Z))%type.
+Definition check09u (c : case09u) : bool :=
+  let '(inds, vals, isp, nn, ocode, ovals) := c in
+  match get_unit_values 0%Z inds vals isp nn with
+  | Err e => Nat.eqb ocode (exn_code e)
+  | Ok uv => Nat.eqb ocode 0 && Z_list2_eqb uv ovals
+  end.
+
+(* create_spec_inds_from_vals: (values (scaled Z), observed indices) *)
+Definition case09c := (list (list Z) * list (list nat))%type.
+Definition check09c (c : case09c) : bool := nat_list2_eqb (spec_inds_from_vals (fst c)) (snd c).
